@@ -96,8 +96,11 @@ func NewRunner(
 		return nil, err
 	}
 
-	// Validate: check if database was migrated with a newer version of Juno (version downgrade)
-	err = validateNoVersionDowngrade(metadata.CurrentVersion, targetVersion)
+	// Validate: check if database was migrated with a newer version of Juno (version downgrade).
+	// Migrations beyond this registry that a newer Juno recorded in its target may already be
+	// partially executed (intermediate state, half-converted buckets), so they count as well.
+	startedByNewer := metadata.LastTargetVersion.Difference(allBitsBelow(registry.Count()))
+	err = validateNoVersionDowngrade(metadata.CurrentVersion.Union(startedByNewer), targetVersion)
 	if err != nil {
 		return nil, err
 	}
@@ -200,6 +203,14 @@ func (mr *MigrationRunner) runMigration(ctx context.Context, migrationIndex uint
 		return fmt.Errorf("writing migration commit batch: %w", err)
 	}
 	return nil
+}
+
+// allBitsBelow returns the version with every index in [0, n) set.
+func allBitsBelow(n int) SchemaVersion {
+	if n >= maxMigrations {
+		return ^SchemaVersion(0)
+	}
+	return SchemaVersion(1)<<n - 1
 }
 
 // validateNoVersionDowngrade checks if the database was migrated with a newer version of Juno
